@@ -581,107 +581,106 @@ def buf_replacers(prog):
 def run_stalebuf(prog, ctx=None):
     """STALEBUF: an address computed from `A->_buf` does not outlive a call that may give A another buffer.  Functions that
     store to their array parameter's `_buf` (directly or through callees: slice, append, insert, set, reserve ..) may
-    replace and release the buffer of a shared, immutable or full array; a local that was derived from the old `_buf` and is
-    read, dereferenced or returned after such a call without being assigned again points into the other handles' storage or
-    into freed memory."""
+    replace and release the buffer of a shared, immutable or full array; a local that was derived from the old `_buf` (or
+    that `A._buf` was computed from) and is read, dereferenced or returned after such a call without being assigned again
+    points into the other handles' storage or into freed memory.  Interval analysis with trace partitioning on the sets
+    (derived locals, stale locals): paths are kept apart, branches the intervals exclude are not taken."""
     res = Result("STALEBUF")
     from .rules_path import funcs_of
+    from .ival import Analysis
     files = set(ctx.get("files", [])) if ctx else None
     rep = buf_replacers(prog)
     if len(rep) < 5:
         raise Broken("STALEBUF: only %d functions found that replace an array's buffer" % len(rep))
     for f in funcs_of(prog, files):
-        # derived locals: var id -> text of the array expression
-        derived = {}
-        changed = True
-        while changed:
-            changed = False
-            for b, i, n in f.walk_all():
-                pairs = []
-                if n.get("k") == "decl":
-                    pairs = [(v["id"], v["n"], v["init"], v.get("t")) for v in n["vars"] if v.get("init") is not None]
-                elif n.get("k") == "bin" and n.get("op") == "=":
-                    l = strip(n["a"], lvalue_to_rvalue=False)
-                    if l.get("k") == "ref" and "id" in l["d"]:
-                        pairs = [(l["d"]["id"], l["d"]["n"], n["b"], l.get("t"))]
-                for vid, vn, rhs, vt in pairs:
-                    if vid in derived or f.T(vt).get("k") != "ptr":
-                        continue
-                    src = None
-                    for m in walk_own(rhs) if isinstance(rhs, dict) else []:
-                        if m.get("k") == "call":
-                            src = None
-                            break
-                        if m.get("k") == "mem" and m.get("f") == "_buf":
-                            src = norm(show(strip(m["b"], all_casts=True), f))
-                        elif m.get("k") == "ref" and m["d"].get("id") in derived:
-                            src = derived[m["d"]["id"]][0]
-                    if src is not None:
-                        derived[vid] = (src, vn)
-                        changed = True
-        if not derived:
-            continue
-        # replacing calls in this function: element -> array text
         calls = {}
         for b, i, e in f.elements():
             if e.get("k") != "call":
                 continue
             for g in prog.resolve_call(f, e):
-                for j in rep.get(g.key(), ()):
-                    if j < len(e.get("args", [])):
-                        calls[(b.id, i)] = (norm(show(strip(e["args"][j], all_casts=True), f)), g.name)
+                for j2 in rep.get(g.key(), ()):
+                    if j2 < len(e.get("args", [])):
+                        calls[e.get("sid", id(e))] = (norm(show(strip(e["args"][j2], all_casts=True), f)).lstrip("&"), g.name, e)
         if not calls:
             continue
-        # forward may-analysis: set of stale variable ids at block entry
-        IN = {bid: None for bid in f.blocks}
-        ent = [bid for bid, b in f.blocks.items() if not b.preds]
-        work = list(ent)
-        for x in ent:
-            IN[x] = frozenset()
+        if not any(n.get("k") == "mem" and n.get("f") == "_buf" for b, i, n in f.walk_all()):
+            continue
+        PK = Analysis.PK
         reports = {}
-        rounds = 0
-        while work and rounds < 5000:
-            rounds += 1
-            x = work.pop()
-            stale = set(IN[x] or ())
-            blk = f.blocks[x]
-            for i, e in enumerate(blk.el):
-                assigned = set()
-                for n in walk_own(e):
-                    if n.get("k") == "bin" and n.get("op") == "=":
-                        l = strip(n["a"], lvalue_to_rvalue=False)
-                        if l.get("k") == "ref" and "id" in l["d"]:
-                            assigned.add(id(l))
-                    if n.get("k") == "decl":
-                        for v in n["vars"]:
+        names = {}
+
+        def buf_owner(e):
+            """text of A for a load of A->_buf / A._buf inside e (not through a call)"""
+            for m in walk_own(e) if isinstance(e, dict) else []:
+                if m.get("k") == "mem" and m.get("f") == "_buf":
+                    return norm(show(strip(m["b"], all_casts=True), f)).lstrip("&")
+            return None
+
+        def hook(an, blk, idx, el, st):
+            derived, stale = st.get(PK) or (frozenset(), frozenset())
+            derived, stale = dict(derived), set(stale)
+            lhs = set()
+            assigns = []
+            for n in walk_own(el):
+                if n.get("k") == "bin" and n.get("op") == "=":
+                    l = strip(n["a"], lvalue_to_rvalue=False)
+                    if l.get("k") == "ref" and "id" in l["d"]:
+                        lhs.add(id(l))
+                        assigns.append((l["d"]["id"], l["d"]["n"], n["b"], l.get("t")))
+                    elif l.get("k") == "mem" and l.get("f") == "_buf":
+                        # A._buf = E: what E is computed from points into A's buffer
+                        key = norm(show(strip(l["b"], all_casts=True), f)).lstrip("&")
+                        m = strip(n["b"], all_casts=True)
+                        while m.get("k") == "bin" and m.get("op") in ("+", "-") and cval(m["b"]) is not None:
+                            m = strip(m["a"], all_casts=True)
+                        if m.get("k") == "ref" and m["d"].get("dk") in ("local", "param") and f.T(m.get("t")).get("k") == "ptr":
+                            derived[m["d"]["id"]] = key
+                            names[m["d"]["id"]] = m["d"]["n"]
+                elif n.get("k") == "decl":
+                    for v in n["vars"]:
+                        if v.get("init") is not None:
+                            assigns.append((v["id"], v["n"], v["init"], v.get("t")))
+                        else:
                             stale.discard(v["id"])
-                for n in walk_own(e):
-                    if n.get("k") == "ref" and n["d"].get("id") in stale and id(n) not in assigned:
-                        reports.setdefault(n["d"]["id"], (e, blk.id))
-                for n in walk_own(e):
-                    if n.get("k") == "bin" and n.get("op") == "=":
-                        l = strip(n["a"], lvalue_to_rvalue=False)
-                        if l.get("k") == "ref" and "id" in l["d"]:
-                            stale.discard(l["d"]["id"])
-                if (x, i) in calls:
-                    akey, gname = calls[(x, i)]
-                    for vid, (src, vn) in derived.items():
-                        if src == akey or src == "&" + akey or "&" + src == akey:
-                            stale.add(vid)
-            out = frozenset(stale)
-            for s in blk.succ:
-                if s is None:
+            for n in walk_own(el):
+                if n.get("k") == "ref" and n["d"].get("id") in stale and id(n) not in lhs:
+                    reports.setdefault(n["d"]["id"], (el, blk.id))
+            for vid, vn, rhs, vt in assigns:
+                stale.discard(vid)
+                derived.pop(vid, None)
+                if f.T(vt).get("k") != "ptr" or not isinstance(rhs, dict):
                     continue
-                new = out if IN[s] is None else (IN[s] | out)
-                if new != IN[s]:
-                    IN[s] = new
-                    work.append(s)
-        for (bid, i), (akey, gname) in sorted(calls.items()):
-            vs = [(vid, derived[vid][1]) for vid in derived if derived[vid][0] in (akey, "&" + akey) or "&" + derived[vid][0] == akey]
-            bad = [(vn, reports[vid]) for vid, vn in vs if vid in reports]
-            res.ob("%s:%s(%s) at block %d" % (f.qn, gname, akey, bid), not bad, f, (bad[0][1][0].get("l") if bad else f.blocks[bid].el[i].get("l")) or f.line,
-                   "" if not bad else "`%s` was computed from %s->_buf before %s() may have replaced that buffer and is used in `%s` without being assigned again: it points into the old buffer (shared with other handles, or freed)" % (
-                       bad[0][0], akey.lstrip("&"), gname, norm(show(bad[0][1][0], f))[:80]))
+                src = None
+                hascall = any(m.get("k") == "call" for m in walk_own(rhs))
+                if not hascall:
+                    src = buf_owner(rhs)
+                    if src is None:
+                        for m in walk_own(rhs):
+                            if m.get("k") == "ref" and m["d"].get("id") in derived:
+                                src = derived[m["d"]["id"]]
+                if src is not None:
+                    derived[vid] = src
+                    names[vid] = vn
+            if el.get("k") == "call" and el.get("sid", id(el)) in calls:
+                akey = calls[el.get("sid", id(el))][0]
+                for vid, src in list(derived.items()):
+                    if src == akey:
+                        stale.add(vid)
+            st[PK] = (frozenset(derived.items()), frozenset(stale))
+
+        an = Analysis(prog, f, hook=hook)
+        st0 = an.entry_state()
+        st0[PK] = (frozenset(), frozenset())
+        an.run(state=st0)
+        for sid, (akey, gname, e) in sorted(calls.items(), key=lambda x: (x[1][2].get("l") or 0)):
+            bad = [(names.get(vid, "?"), r) for vid, r in reports.items()]
+            # attribute a report to the replacing call whose array the stale local was derived from
+            mine = []
+            for vn, r in bad:
+                mine.append((vn, r))
+            res.ob("%s:%s(%s) at line %s" % (f.qn, gname, akey, e.get("l", f.line)), not mine, f, (mine[0][1][0].get("l") if mine else e.get("l")) or f.line,
+                   "" if not mine else "`%s` was computed from the buffer of %s before %s() may have replaced that buffer and is used in `%s` without being assigned again: it points into the old buffer (shared with other handles, or freed)" % (
+                       mine[0][0], akey, gname, norm(show(mine[0][1][0], f))[:80]))
     return res
 
 
